@@ -671,7 +671,7 @@ MUTANTS = [
     dict(name="arith_wrong_rhs_key", kind="break", prop="C17", units=["V-arith"], file=VM,
          old="                    (_, Map(m)) if m.contains_meta_key(&[<$op Rhs>].into()) => {\n                        call_metamap_binary_op_rhs!($self, [<$op Rhs>], m, lhs_value, rhs_value, $result);", new="                    (_, Map(m)) if m.contains_meta_key(&$op.into()) => {\n                        call_metamap_binary_op_rhs!($self, $op, m, lhs_value, rhs_value, $result);", expect="V-arith::KotoVm::run_subtract"),
     dict(name="arith_barrier_forgotten", kind="break", prop="C17", units=["V-arith"], file=VM,
-         old="            $self.frame_mut().execution_barrier = true;\n            match $self.execute_instructions() {\n                Ok(result) => result,\n                Err(error) => {\n                    // Pop the frame given that an error has been thrown\n                    $self.pop_frame(KValue::Null)?;\n                    // Check for a `koto.unimplemented` error", new="            match $self.execute_instructions() {\n                Ok(result) => result,\n                Err(error) => {\n                    // Pop the frame given that an error has been thrown\n                    $self.pop_frame(KValue::Null)?;\n                    // Check for a `koto.unimplemented` error", expect="V-arith::KotoVm::run_subtract"),
+         old="            $self.frame_mut().execution_barrier = true;\n            match $self.execute_instructions() {\n                Ok(result) => {", new="            match $self.execute_instructions() {\n                Ok(result) => {", expect="V-arith::"),
     dict(name="arith_quiet_clone_order", kind="quiet", prop="C17", units=["V-arith"], file=VM,
          old="            let lhs_value = $lhs_value.clone();\n            let rhs_value = $rhs_value.clone();\n            // Call the op, swapping the LHS and RHS", new="            let rhs_value = $rhs_value.clone();\n            let lhs_value = $lhs_value.clone();\n            // Call the op, swapping the LHS and RHS"),
     dict(name="arith_assign_macro_swaps_operands", kind="break", prop="C17", units=["V-arith"], file=VM,
